@@ -53,7 +53,7 @@ type caseData struct {
 }
 
 func (prop) Drive(d *core.Driver) error {
-	n := d.N(1500, 30000)
+	n := d.N(1500, 50000)
 	d.T.Rule = "a random straight-line program over 1-4 globals declared without a value (string/int/struct) and same-named variables of an auto-imported package p is rendered to template files: reads and writes at top level, in macros declared before/after the first top-level use, in function literals, in an imported file, in an extended layout and in rendered partials, inside if/for; each template is built once and run 3 times (values, pointers, no variables; random subsets). distinct_nontrivial counts distinct (file layout, variable type, initialiser mode, kind of unit holding the first executed reference, kind of unit holding the first reference in source order) tuples over variables that were read at least once"
 	d.T.Assumptions = []string{"values are alphanumeric, so no escaping interferes with the event log", "UsedVars is only required to contain the globals referenced by executed code (the documentation allows dead code to be missed)"}
 	firstTop := d.InScope("first-ref-in-macro")
